@@ -281,6 +281,13 @@ def kernel_queries(db, contracts, consts):
         if name in kernels.ASSUMED:
             skipped.append((name, 'contract ASSUMED, not enforced: ' + kernels.ASSUMED[name]))
             continue
+        if name in kernels.STUB_ENFORCE:
+            try:
+                q = kernels.build_stub_enforce_query(db, contracts, consts, name)
+                qs.append(Query('kernel/%s' % name, q['c'], meta=q['meta'], timeout=900, extra=tuple(kernels.STUB_ENFORCE[name])))
+            except bx2c.Unsupported as e:
+                skipped.append((name, str(e)))
+            continue
         try:
             q = kernels.build_kernel_query(db, contracts, consts, name)
         except bx2c.Unsupported as e:
@@ -351,9 +358,10 @@ def genbb_queries(db, prop, known):
             if only and name not in only:
                 continue
             qid = 'genbbsub/c06/%s' % name
-            kw = [k['site'] for k in known if k['qid'] == qid and k.get('site')]
+            kw = [k['site'] for k in known if k['qid'] == qid and k.get('site') and k['property'] == 'C06']
+            kw7 = [k['site'] for k in known if k['qid'] == qid and k.get('site') and k['property'] == 'C07']
             try:
-                q = genbb.build_c06_query(db, prog, name, lv.get(name), known_where=kw)
+                q = genbb.build_c06_query(db, prog, name, lv.get(name), known_where=kw, known_where7=kw7)
             except (bx2c.Unsupported, f77c.Unsupported) as e:
                 skipped.append((name, 'NOT COVERED: ' + str(e)[:300]))
                 continue
@@ -684,6 +692,58 @@ def prop_genbb(prop, tier, seed):
     return rc if rc != 0 else rc_static
 
 
+def prop_c16(prop, tier, seed):
+    import misc
+    t0 = time.time()
+    db = load_db()
+    known, fixed = load_known()
+    queries, skipped = [], [list(b) for b in db['bad'] if b[1] in ('decay0_dgmlt1', 'decay0_dgmlt2')]
+    for fn in ('decay0_dgmlt1', 'decay0_dgmlt2'):
+        try:
+            q = misc.build_c16_tables_query(db, fn)
+            queries.append(Query('c16/tables/%s' % fn, q['c'], checks=['--no-standard-checks', '--bounds-check'], meta=q['meta'], timeout=300))
+        except bx2c.Unsupported as e:
+            skipped.append((fn, str(e)))
+    results = run_all(queries)
+    return evaluate(prop, queries, results, known, tier, seed, t0, skipped=skipped, assumptions=ASSUMPTIONS['C16'],
+                    extra_cov={'not_covered': ['exactness on every interval (affine change of variable: real-arithmetic lemma)', 'adaptive QNG tolerance (GSL internals)',
+                                               'Simpson exactness, golden-section accuracy, divided differences, rotate_zyz orthonormality, Fermi closed form: not built / not decidable here']})
+
+
+def prop_c07(prop, tier, seed):
+    import misc
+    t0 = time.time()
+    db = load_db()
+    contracts, consts = oblig.load_contracts()
+    known, fixed = load_known()
+    sc = selfcheck_summary(db, tier, seed)
+    if sc['differences']:
+        return 2
+    queries, skipped = kernel_queries(db, contracts, consts)
+    gq, sk2 = genbb_queries(db, 'C06', known)
+    queries += gq
+    results = run_all(queries)
+    facts = misc.frame_facts(db)
+    rc_static = 0
+    fl = []
+    for (fn, fact, ok, detail) in facts:
+        if not ok:
+            d = '%s: %s' % (fn, fact)
+            k = match_known(known, 'C07', 'frame', d)
+            if k:
+                print('KNOWN-FINDING: property=C07 frame :: %s -- %s' % (d, k['text']))
+            else:
+                os.makedirs(os.path.join(REPLAYS, 'C07'), exist_ok=True)
+                rp = os.path.join(REPLAYS, 'C07', 'frame.' + hashlib.sha256(d.encode()).hexdigest()[:8] + '.json')
+                json.dump({'property': 'C07', 'obligation': 'frame :: ' + d, 'detail': detail}, open(rp, 'w'), indent=1)
+                print('VIOLATION property=C07 replay=%s obligation="frame :: %s" detail=%s no-failing-input-found' % (rp, d, detail[:3]))
+                rc_static = 1
+            fl.append({'function': fn, 'fact': fact, 'detail': detail})
+    rc = evaluate(prop, queries, results, known, tier, seed, t0, skipped=skipped + sk2, selfcheck=sc, assumptions=ASSUMPTIONS['C07'],
+                  extra_cov={'static_frame_facts': len(facts), 'static_frame_facts_holding': sum(1 for f_ in facts if f_[2]), 'static_frame_facts_failing': fl})
+    return rc if rc != 0 else rc_static
+
+
 def prop_rel(prop, tier, seed):
     t0 = time.time()
     db = load_db()
@@ -703,6 +763,11 @@ def prop_rel(prop, tier, seed):
 
 
 ASSUMPTIONS = {
+    'C16': ['only the tabulated Gauss-Legendre rules are decided (ground obligations on the real initialisers, bit-precise)',
+            'exactness on an arbitrary interval follows by the affine change of variable: real-arithmetic lemma, assumed'],
+    'C07': ['frame of L0-L2 kernels: DFCC assigns obligations; frame of L3-L5 bodies: scan of every assignment target in the clang AST (static fact, not a CBMC obligation)',
+            'pointer/reference into the particle vector across an emission is the C08 obligation set (vector model: any push_back may reallocate)',
+            'other generator instances, reset()/re-initialisation, shoot() resetting the event: decay0_generator.cc (pimpl/STL), not covered'],
     'C05': ['scheme routines are replaced by the abstract effect "log my id, append 1..3 particles, return a decay time"; that each routine IS its scheme is C01/C04',
             'double-beta names: dispatch to the *low cascade is covered by C06/C03 obligations, not here',
             'bb_utils.cc list-file parser and the CLI/Geant4 consumers (std::map/ifstream) are outside the C subset: not covered'],
@@ -741,6 +806,10 @@ def main():
             return prop_rel(cmd, tier, seed)
         if cmd in ('C05', 'C06'):
             return prop_genbb(cmd, tier, seed)
+        if cmd == 'C16':
+            return prop_c16(cmd, tier, seed)
+        if cmd == 'C07':
+            return prop_c07(cmd, tier, seed)
         log('property %s is not claimed (see MANIFEST.not_applicable)' % cmd)
         return 2
     except Exception:
